@@ -202,6 +202,30 @@ Definition annotate (p : program E) : program E * list block :=
 
 End Annotate.
 
+(* ---- which bodies compile to no instructions (compiler.go) ----
+   c.stmt(BlockStmt) is c.stmts(s.Body): a block of (nested) empty blocks emits nothing; every
+   other statement emits at least one opcode. *)
+Section Codeless.
+Context {E : Type}.
+Fixpoint codeless_stmt (s : cstmt E) : bool :=
+  match s with
+  | SBlock _ _ body => forallb codeless_stmt body
+  | _ => false
+  end.
+(* Compile, pattern-action blocks: Stmts == nil -> no body; len == 0 -> Nop; else c.stmts.
+   The interpreter prints $0 when len(action.Body) == 0. *)
+Definition action_prints (b : option (list (cstmt E))) : bool :=
+  match b with
+  | None => true
+  | Some [] => false
+  | Some l => forallb codeless_stmt l
+  end.
+(* Compile, END blocks: "if len(stmts) > 0 { c.stmts(stmts) } else { c.add(Nop) }", all appended
+   to one sequence; executeAll skips the input when there are no actions and len(End) == 0 *)
+Definition end_is_empty (ls : list (list (cstmt E))) : bool :=
+  forallb (fun l => match l with [] => false | _ => forallb codeless_stmt l end) ls.
+End Codeless.
+
 (* ---- specification vocabulary over annotated trees ---- *)
 Section Tagged.
 Context {E : Type}.
@@ -555,6 +579,12 @@ Definition match_action (a : action E) (inr : bool) (q : st) : st * option bool 
       end
   end.
 
+Definition print_q (q : st) : st * outcome :=
+  match print_record (s_u q) with
+  | (u', None) => (mkst u' (s_x q) (s_tr q), ONormal)
+  | (u', Some v) => (mkst u' (s_x q) (s_tr q), OAbort (AErr v))
+  end.
+
 (* all actions on one record.  Result: the in-range flags and
    ONormal (go on with the next record) or what stopped the program *)
 Fixpoint run_actions (acts : list (action E)) (inrs : list bool) (q : st) : st * list bool * outcome :=
@@ -566,11 +596,10 @@ Fixpoint run_actions (acts : list (action E)) (inrs : list bool) (q : st) : st *
       match match_action a inr q with
       | (q1, Some true, inr', _) =>
           let r := match a_body a with
-                   | None => match print_record (s_u q1) with        (* no action = print $0 *)
-                             | (u', None) => (mkst u' (s_x q1) (s_tr q1), ONormal)
-                             | (u', Some v) => (mkst u' (s_x q1) (s_tr q1), OAbort (AErr v))
-                             end
-                   | Some body => xlist body q1
+                   | Some body =>
+                       if action_prints (a_body a) then print_q q1   (* compiled to no code *)
+                       else xlist body q1
+                   | None => print_q q1                              (* no action = print $0 *)
                    end in
           match r with
           | (q2, ONormal) => let '(q3, rest, o) := run_actions t inrs' q2 in (q3, inr' :: rest, o)
@@ -602,8 +631,8 @@ Fixpoint run_records (m : nat) (acts : list (action E)) (inrs : list bool) (q : 
    fuel / stuck outcome that stopped the run *)
 Definition exec_prog (p : program E) (q : st) : st * outcome :=
   let after_begin (q1 : st) (exited : bool) : st * outcome :=
-    match p_actions p, p_end p with
-    | [], [] => (q1, ONormal)                        (* only BEGIN: input is not read *)
+    match p_actions p, end_is_empty (p_end p) with
+    | [], true => (q1, ONormal)                      (* only BEGIN: input is not read *)
     | _, _ =>
         let r2 := if exited then (q1, ONormal)
                   else match run_records n (p_actions p) (map (fun _ => false) (p_actions p)) q1 with
